@@ -243,3 +243,32 @@ Definition dur_toks (ts : list tok) : option duration :=
     end
   | _ => None
   end.
+
+(* an expression as a sequence of clauses, in the order written *)
+Inductive clause := CDur (ts : list tok) | CFrom (z : Z) | CTo (z : Z).
+Definition clause_toks (c : clause) : list tok :=
+  match c with
+  | CDur ts => ts
+  | CFrom z => [KTok T_SINCE; KDate z]
+  | CTo z => [KTok T_UNTIL; KDate z]
+  end.
+(* what the clauses mean, one after the other: a later duration replaces an earlier one, a second
+   from (or to) is an error *)
+Fixpoint apply_clauses (fmt : str) (cy : Z) (cs : list clause) (st : pstate) {struct cs} : res pstate :=
+  match cs with
+  | [] => Ok st
+  | CDur ts :: r => match dur_toks ts with
+                    | Some d => apply_clauses fmt cy r (with_dur st d)
+                    | None => Err EOther
+                    end
+  | CFrom z :: r => match ps_since st with
+                    | None => apply_clauses fmt cy r (with_since st (bound_of_text fmt cy z))
+                    | Some _ => Err EOther
+                    end
+  | CTo z :: r => match ps_until st with
+                  | None => apply_clauses fmt cy r (with_until st (bound_of_text fmt cy z))
+                  | Some _ => Err EOther
+                  end
+  end.
+Definition perms3 {A} (a b c : A) : list (list A) :=
+  [[a; b; c]; [a; c; b]; [b; a; c]; [b; c; a]; [c; a; b]; [c; b; a]].
